@@ -668,6 +668,46 @@ func init() {
 		}
 		p.Tail()
 	}})
+	Probes = append(Probes, Probe{"names-of-multi-byte-characters-around-name-max", []string{"C19", "C11", "C13"}, 0, func(p *P) {
+		// name_max counts bytes (a directory slot holds 112): names of two- and three-byte characters whose byte length is
+		// around the limit while their character count is far below it
+		d := p.Mkdir(p.Root, "d").RFh
+		mk := func(ch string, nbytes int) string {
+			s := strings.Repeat(ch, nbytes/len(ch))
+			for len(s) < nbytes {
+				s += "x"
+			}
+			return s
+		}
+		i := 0
+		for _, ch := range []string{"\u00e9", "\u20ac"} {
+			for _, n := range []int{108, 111, 112, 113, 114, 117, 168} {
+				name := mk(ch, n)
+				switch i % 3 {
+				case 0:
+					p.Create(d, name)
+				case 1:
+					p.Mkdir(d, name)
+				default:
+					p.Create(d, fmt.Sprintf("t%d", i))
+					p.Rename(d, fmt.Sprintf("t%d", i), d, name)
+				}
+				p.Lookup(d, name)
+				i++
+			}
+		}
+		p.Enumerate(d, false, 4096, 12)
+		p.Enumerate(d, true, 4096, 12)
+		p.Create(d, "after")
+		p.S.WaitIdle()
+		p.T.Emit(TakeSnap(p.S, "run", true))
+		if !p.Restart() {
+			return
+		}
+		p.Enumerate(d, false, 4096, 12)
+		p.Lookup(d, mk("\u00e9", 112))
+		p.Tail()
+	}})
 	Probes = append(Probes, Probe{"create-with-an-initial-size", []string{"C11", "C02", "C19"}, 0, func(p *P) {
 		// the size among CREATE's initial attributes may be ignored or applied, but never beyond what SETATTR accepts: a file
 		// whose size the block map cannot address crashes a later READ and keeps the thread that frees it busy for ever
